@@ -21,8 +21,9 @@
                                                                 property C12, finding F2); assumed not to raise
 
    The disjunction check of is_ready is NESTED inside the `if conjunction_needed and not rule_block.conjunction:` branch in
-   the code as written (engine.py 492-502); `is_ready_as_written` mirrors that, `is_ready_fixed` is the repaired version
-   with the check dedented, and `is_ready` is whichever of the two mirrors the code currently in /repo — see THE SWITCH. *)
+   the code as written at the pinned commit (engine.py 492-502); `is_ready_as_written` mirrors that, `is_ready_fixed` is the
+   repaired version with the check dedented (the code after the fix commit), and `is_ready` is whichever of the two mirrors
+   the code currently in /repo — see THE SWITCH (now: fixed). *)
 From Coq Require Import Bool List String Arith.
 From VF Require Import GenTerm GenOpTable Core.
 Import ListNotations.
@@ -498,9 +499,10 @@ End Ready.
 
 (* ================================================================ THE SWITCH
    true  : Engine.is_ready as written at the pinned commit (disjunction check nested, finding F9)
-   false : after the `fix:` commit that dedents it.
-   Everything stated about `is_ready` below and in Properties/C19.v follows this one line. *)
-Definition disjunction_check_nested : bool := true.
+   false : after the `fix:` commit that dedents it ("fix: Engine.is_ready did not report a missing disjunction operator").
+   Everything stated about `is_ready` below and in Properties/C19.v follows this one line; the correspondence check
+   (tools/props/C19.py) compares `is_ready` with the code in /repo on every run, so a wrong setting shows as mismatches. *)
+Definition disjunction_check_nested : bool := false.
 Definition is_ready {T : Type} : engine T -> texts -> list msg :=
   if disjunction_check_nested then is_ready_as_written else is_ready_fixed.
 
